@@ -259,7 +259,9 @@ SEW_CLASSES = {"1": "sew/unsew topology differs from the corresponding link/unli
                "6": "call succeeded although the attribute law rejects the merge/split"}
 PROPS["C04"] = dict(
     level="proof",
-    level_text="Coq: sew/unsew topology = link/unlink topology for every store (C04_sew_topology...), errors change nothing "
+    level_text="Coq theorems C04_{one,two}_{sew,unsew}_topology: for EVERY store, dart pair, law and fault position a sew / unsew "
+               "that terminates normally has exactly the effect of the corresponding link / unlink on all images and removal flags "
+               "(and that link / unlink succeeds); errors change nothing "
                "(C06), and the executable specification of the data clauses (merged cells carry the merge under the new id, "
                "unchanged cells keep their value, nothing stale, split mirror) built on the verified orbit closure is applied "
                "to every implementation observation; the data clauses are proved for the model only through the correspondence "
@@ -284,7 +286,7 @@ PROPS["C14"] = dict(
     level_text="the kernel is transcribed in Gallina (Kern2.v) and compared with the implementation on every observation; the "
                "property itself (k+1 consecutive segments, positions under the cell id, both sides glued, everything else "
                "and the null dart untouched, error clauses) is an executable Coq predicate applied to every implementation "
-               "observation; proved: atomicity of failures (C06) and the structural lemmas listed in the evidence",
+               "observation; proved: atomicity of failures only",
     technique="Coq model of the kernel + correspondence + extracted Coq specification as per-run validator",
     families=[
         Family("kern-insert", "core2", r_kern("insert", 1500, 30000), 1, [(7, "insert_spec", INS_CLASSES)]),
@@ -303,7 +305,7 @@ PROPS["C13"] = dict(
                "compared with the implementation; the property (n-2 triangles on the original vertices, orientation, exact "
                "area sum, untouched neighbourhood, completeness on strictly convex resp. simple polygons) is an executable Coq "
                "predicate with exact dyadic arithmetic applied to every implementation observation; proved: atomicity of "
-               "failures and the shoelace/fan identities listed in the evidence. Ear-clipping completeness (two-ears theorem) "
+               "failures and, for every polygon, the fan triangles tile the shoelace area (C13_fan_tiles_area). Ear-clipping completeness (two-ears theorem) "
                "is searched, not proved",
     technique="Coq model of the kernels + correspondence + extracted Coq specification (exact arithmetic) as per-run validator",
     families=[
@@ -323,7 +325,7 @@ PROPS["C15"] = dict(
     level_text="swap / cut / collapse (and the orientation routine, anchor algebra) transcribed in Gallina and compared with the "
                "implementation; the property (triangles stay triangles, well-formedness, V/E/F deltas, vertex set, exact area "
                "conservation, orientation after collapse, swap = other diagonal, anchors) is an executable Coq predicate "
-               "applied to every implementation observation; proved: atomicity of failures, anchor-merge algebra",
+               "applied to every implementation observation; proved: atomicity of failures and the area identities of swap and cut (C15_swap_conserves_area, C15_cut_conserves_area)",
     technique="Coq model of the kernels + correspondence + extracted Coq specification (exact arithmetic) as per-run validator",
     families=[
         Family("kern-remesh", "core2", r_kern("remesh", 1200, 20000, 8), 1, [(9, "remesh_spec", REM_CLASSES)]),
@@ -660,8 +662,8 @@ PROPS["C07"] = dict(
         Family("sched-exh", "sched", lambda tier, seed: ["--mode", "exh", "--cases", {"quick": "60", "thorough": "600"}[tier],
                                                          "--maxsched", {"quick": "120", "thorough": "1500"}[tier]], 60,
                [(61, "serial", SERIAL_CLASSES)], crate="harness-sched"),
-        Family("sched-pb", "sched", lambda tier, seed: ["--mode", "pb", "--cases", {"quick": "60", "thorough": "1500"}[tier],
-                                                        "--maxsched", {"quick": "40", "thorough": "200"}[tier]], 60,
+        Family("sched-pb", "sched", lambda tier, seed: ["--mode", "pb", "--cases", {"quick": "60", "thorough": "500"}[tier],
+                                                        "--maxsched", {"quick": "40", "thorough": "120"}[tier]], 60,
                [(61, "serial", SERIAL_CLASSES)], crate="harness-sched"),
         Family("sched-random", "sched", lambda tier, seed: ["--mode", "random", "--cases", {"quick": "150", "thorough": "3000"}[tier],
                                                             "--scheds", {"quick": "6", "thorough": "12"}[tier]], 60,
